@@ -81,3 +81,14 @@ package volatility
 //@ typeinv BollingerBandsStrategy :: b.BollingerBands.Period >= 1 && warmup(self) == (b.BollingerBands.IdlePeriod())
 //@ typeinv SuperTrendStrategy :: warmup(self) == (s.SuperTrend.IdlePeriod())
 // ---- end generated typeinv ----
+
+// ---- generated constructor contracts (govc genctor; do not edit by hand) ----
+// what each New* function returns, read off its literal: fresh, pairwise separate sub-objects, fields equal to the
+// arguments / constants they are initialised with (transitively through nested constructors); proved, not assumed
+//@ func NewBollingerBandsStrategy
+//@ ensures[C06] "fresh-and-separate-objects" fresh(result) && fresh(result.BollingerBands)
+//@ ensures[C06] "configured-as-given" result.BollingerBands.Period == 20
+
+//@ func NewSuperTrendStrategy
+//@ ensures[C06] "fresh-and-separate-objects" fresh(result)
+// ---- end of generated constructor contracts ----
